@@ -147,9 +147,9 @@ Definition fclose2 (a b : float) : bool :=
 Definition check_float (c : case) : bool := edges_ok c && check_with Fops fclose2 lit_f (cot_code Fops) c.
 
 (* exact run over Q (combinatorial operators: exact equality; planar lattice meshes: textbook cotangent, exact roots;
-   the implementation's doubles are compared as the rationals they denote, tolerance 1e-12 for their rounding) *)
+   the implementation's doubles are compared as the rationals they denote, house tolerance 1e-9 (1 + |x|) for their rounding) *)
 Definition q_exact (a b : Q) : bool := Qeq_bool a b.
 Definition q_close (a b : Q) : bool :=
-  Qle_bool (Qabs (a - b)) ((1 # 1000000000000) * (1 + Qabs b)).
+  Qle_bool (Qabs (a - b)) ((1 # 1000000000) * (1 + Qabs b)).
 Definition check_q_exact (c : case) : bool := edges_ok c && check_with Qops q_exact lit_q (cot_simple Qops) c.
 Definition check_q_close (c : case) : bool := edges_ok c && check_with Qops q_close lit_q (cot_simple Qops) c.
